@@ -5,6 +5,7 @@ import (
 	"go/constant"
 	"go/token"
 	"go/types"
+	"regexp"
 	"sort"
 	"strings"
 
@@ -714,6 +715,8 @@ func fieldOfAny(v ssa.Value) *types.Var {
 	return nil
 }
 
+var phiNameRE = regexp.MustCompile(`phi:[A-Za-z0-9_]+`)
+
 func ruleBloomSiblings(c *Ctx, r *Reporter) {
 	r.Rule("bloom-siblings-agree", 3)
 	addF := c.Func("pkg/bloom_filter", "BloomFilter", "Add")
@@ -733,7 +736,14 @@ func ruleBloomSiblings(c *Ctx, r *Reporter) {
 		for _, l := range GenericLoops(fn) {
 			for _, ins := range l.Header.Instrs {
 				if iff, ok := ins.(*ssa.If); ok {
-					parts = append(parts, "while "+CondString(iff.Cond))
+					cs := CondString(iff.Cond)
+					// orientation: induction variable on the left
+					if bo, ok := iff.Cond.(*ssa.BinOp); ok {
+						if _, isPhi := bo.Y.(*ssa.Phi); isPhi {
+							cs = operandString(bo.Y) + " " + flipOp(bo.Op).String() + " " + operandString(bo.X)
+						}
+					}
+					parts = append(parts, "while "+cs)
 				}
 				if ph, ok := ins.(*ssa.Phi); ok {
 					for i, e := range ph.Edges {
@@ -759,7 +769,8 @@ func ruleBloomSiblings(c *Ctx, r *Reporter) {
 			parts = append(parts, "bit("+src+")")
 		}
 		sort.Strings(parts)
-		return strings.Join(parts, "; ")
+		// local names do not matter
+		return phiNameRE.ReplaceAllString(strings.Join(parts, "; "), "phi")
 	}
 	sa, sc := shape(addF, setB), shape(conF, tstB)
 	r.Check(sa == sc && strings.Contains(sa, "hash(") && strings.Contains(sa, "bit(hash-result)"), "bloomfilter.Add≈Contains", c.FnPos(conF), "same index range and hash sequence: "+sa,
